@@ -127,8 +127,7 @@ def tlc(cwd, module, cfg, workers=None, timeout=600, simulate=None, depth=None, 
     """Run TLC in `cwd` (a scratch copy). Always under a timeout, own metadir."""
     meta = os.path.join(cwd, "meta-%s-%d" % (os.path.basename(cfg), int(time.time() * 1000) % 100000))
     cmd = ["timeout", str(timeout), "java", "-XX:+UseParallelGC", "-Xss64m"]
-    if heap:
-        cmd.append("-Xmx" + heap)
+    cmd.append("-Xmx" + (heap or os.environ.get("VERIF_TLC_HEAP", "6g")))   # bounded: several checks may run at once
     if dfs:
         cmd.append("-Dtlc2.tool.queue.IStateQueue=StateDeque")
     cmd += ["-cp", "/opt/veriftools/tla/tla2tools.jar:/opt/veriftools/tla/CommunityModules-deps.jar", "tlc2.TLC",
